@@ -27,8 +27,10 @@ Unref(C) == {s \in C : ~s.decl}
 (* a non-empty version matches on the version string only.                                                   *)
 Lookup(C, n, v) == IF v = "" THEN (\E s \in C : s.n = n /\ s.v = "") \/ (\E s \in C : s.n = n /\ s.d)
                    ELSE \E s \in C : s.n = n /\ s.v = v
-(* the added-side special case: a symbol with a default version whose name existed unversioned before *)
-DefaultVersionReexportRule(C, t) == t.v # "" /\ t.d /\ Lookup(C, t.n, "")
+(* the added-side special case: a symbol with a default version whose name existed unversioned before.        *)
+(* (As found, the code asked Lookup(C, t.n, ""), which also answers yes for a *default*-versioned symbol of that *)
+(* name: fn1@@V1 -> fn1@@V2 reported the removal but not the addition.  Repaired in /repo; see known-findings.)  *)
+DefaultVersionReexportRule(C, t) == t.v # "" /\ t.d /\ \E s \in C : s.n = t.n /\ s.v = ""
 
 NoPartner(S, T) == {s \in S : ~\E t \in T : SameKey(s, t)}
 RemovedDecls(A, B) == {s \in NoPartner(Decls(A), Decls(B)) : ~Lookup(B, s.n, s.v)}
